@@ -78,6 +78,8 @@ FAMILIES = {
     ],
     'C14': [
         {'family': 'lease', 'knobs': {}, 'quick': 400, 'thorough': 6000},
+        # a lease belongs to its connection: reconnects while leases are held / requests are waiting
+        {'family': 'lease', 'knobs': {'p_reconnect': 0.12}, 'quick': 250, 'thorough': 4000, 'first': 100000},
     ],
     'C15': [
         {'family': 'keepalive', 'knobs': {}, 'quick': 400, 'thorough': 6000},
